@@ -70,7 +70,7 @@ func (w recWRF) ReadFrom(src io.Reader) (int64, error) {
 // 0..7 SetStatus(code) ; h SetHeader ; e Write("") ; w Write("ab") ; f Flush ; E http.Error(418) ; R Redirect(302) ; T Text(201,"hi") ; S Stream(203, reader without WriteTo)
 var c08Status = map[byte]int{'0': -1, '1': 0, '2': 200, '3': 304, '4': 201, '5': 404, '6': 500, '7': 204, '8': 103, '9': 100}
 
-const c08Ops = "0123456789hewfERTStWI"
+const c08Ops = "0123456789hewfERTStWIH"
 
 func c08Apply(c *rux.Context, op byte) {
 	switch op {
@@ -94,6 +94,9 @@ func c08Apply(c *rux.Context, op byte) {
 		c.WriteString("ab")
 	case 'I':
 		_, _ = io.WriteString(c.Resp, "ab")
+	case 'H':
+		// a net/http handler wrapped into the chain answers with http.Error
+		rux.WrapH(http.HandlerFunc(func(w http.ResponseWriter, _ *http.Request) { http.Error(w, "teapot", 418) }))(c)
 	case 'S':
 		c.Stream(203, "x/stream", struct{ io.Reader }{strings.NewReader("str")})
 	default:
@@ -171,7 +174,7 @@ func (m *c08Model) apply(op byte) {
 	case 'f':
 		m.commit()
 		m.log = append(m.log, "F")
-	case 'E':
+	case 'E', 'H':
 		m.ctSet = true
 		m.setStatus(418)
 		m.write("teapot\n")
@@ -231,6 +234,7 @@ type c08Run_ struct {
 	Nested  bool         `json:"nested_router,omitempty"`             // the main handler hands the request to a second rux router, whose handler performs the main operations
 	Hj      bool         `json:"after_hijacked_request,omitempty"`    // the router served a request whose handler hijacked its connection right before
 	WS      bool         `json:"websocket_upgrade_headers,omitempty"` // the request carries "Connection: upgrade" and "Upgrade: websocket" (no upgrade takes place)
+	Pn      bool         `json:"panic_then_hook_writes,omitempty"`    // the main handler panics at its end; the router's OnPanic hook writes "H"
 }
 
 // recWHJ is a recording writer that can be hijacked
@@ -309,6 +313,9 @@ func newC08Harness() *c08Harness {
 		if run.K > 0 {
 			c.AddError(errors.New("recorded"))
 		}
+		if run.Pn {
+			panic("boom")
+		}
 	})
 	return h
 }
@@ -333,6 +340,10 @@ func (h *c08Harness) exec(run *c08Run_) (w *recW, length, status int, sampled bo
 		h.req.Header.Set("Connection", "keep-alive, Upgrade")
 		h.req.Header.Set("Upgrade", "websocket")
 	}
+	h.r.OnPanic = nil
+	if run.Pn {
+		h.r.OnPanic = func(c *rux.Context) { _, _ = c.Resp.Write([]byte("H")) }
+	}
 	pv = try(func() { h.r.ServeHTTP(under, h.req) })
 	return w, h.length, h.status, h.sampled, pv
 }
@@ -347,17 +358,21 @@ func c08Check(h *c08Harness, run c08Run_, st *fw.Stats) *fw.Viol {
 		// the re-dispatched chain belongs to the same request: its write goes through the same single commit
 		m.write("cd")
 	}
+	if run.Pn {
+		// the panic (the handler's own, or that of a helper whose write failed) ends the chain; the hook writes "H"
+		m.write("H")
+	}
 	wasCommitted := m.committed
 	lenBeforeEnd := m.length
-	if !m.panicked {
-		m.commit() // the chain end commits the header
+	if !m.panicked || run.Pn {
+		m.commit() // the chain end (or the recovery after the hook) commits the header
 	}
 	w, length, status, sampled, pv := h.exec(&run)
 	desc := func() string {
-		return fmt.Sprintf("ops %q (middleware before Next: %q, main handler: %q, middleware after Next: %q), write answers %v [0-9=SetStatus(-1,0,200,304,201,404,500,204,103,100) h=SetHeader e=Write(\"\") w=Write(\"ab\") f=Flush E=http.Error(418) R=Redirect(302) T=Text(201) t=Text(200) W=c.WriteString I=io.WriteString(c.Resp) S=Stream(203)]",
-			run.Ops, run.Ops[:run.I], run.Ops[run.I:run.J]+map[bool]string{true: " then HandleContext to a route writing \"cd\"", false: ""}[run.Redisp], c08Tail(run), fmtAnswers(run.Answers))
+		return fmt.Sprintf("ops %q (middleware before Next: %q, main handler: %q, middleware after Next: %q), write answers %v [0-9=SetStatus(-1,0,200,304,201,404,500,204,103,100) h=SetHeader e=Write(\"\") w=Write(\"ab\") f=Flush E=http.Error(418) R=Redirect(302) T=Text(201) t=Text(200) W=c.WriteString I=io.WriteString(c.Resp) S=Stream(203) H=wrapped net/http handler calling http.Error(418)]%s",
+			run.Ops, run.Ops[:run.I], run.Ops[run.I:run.J]+map[bool]string{true: " then HandleContext to a route writing \"cd\"", false: ""}[run.Redisp], c08Tail(run), fmtAnswers(run.Answers), map[bool]string{true: "; the main handler then panics and the router's OnPanic hook writes \"H\"", false: ""}[run.Pn])
 	}
-	if pv != nil && !m.panicked {
+	if pv != nil && (!m.panicked || run.Pn) {
 		return &fw.Viol{Sig: "writer:panic", Msg: fmt.Sprintf("%s: ServeHTTP panicked: %v", desc(), pv)}
 	}
 	got := strings.Join(w.log, " ")
@@ -612,6 +627,9 @@ func c08RunCase(c c08Case, st *fw.Stats) []fw.Viol {
 			// ... for a request that carries websocket-upgrade headers (which nobody acts upon)
 			try1(c08Run_{Ops: ops, I: 0, J: d, WS: true})
 			try1(c08Run_{Ops: ops, I: d / 2, J: d, WS: true})
+			// ... with the main handler panicking at its end and the router's OnPanic hook writing a byte
+			try1(c08Run_{Ops: ops, I: 0, J: d, Pn: true})
+			try1(c08Run_{Ops: ops, I: d / 2, J: d, Pn: true})
 			// ... with the main handler's operations performed by a second router mounted inside it
 			try1(c08Run_{Ops: ops, I: 0, J: d, Nested: true})
 			try1(c08Run_{Ops: ops, I: d / 2, J: d, Nested: true})
@@ -628,10 +646,15 @@ func c08RunCase(c c08Case, st *fw.Stats) []fw.Viol {
 				try1(c08Run_{Ops: ops, I: d / 2, J: d, RF: true})
 			}
 			if c.Dev >= 1 {
+				for _, ka := range []byte{'s', 'e'} {
+					// (the hook's own write fails)
+					try1(c08Run_{Ops: ops, I: 0, J: d, Answers: map[int]byte{nw: ka}, Pn: true})
+				}
 				for a := 0; a < nw; a++ {
 					for _, ka := range []byte{'s', 'e'} {
 						try1(c08Run_{Ops: ops, I: 0, J: d, Answers: map[int]byte{a: ka}})
 						try1(c08Run_{Ops: ops, I: d / 2, J: d, Answers: map[int]byte{a: ka}})
+						try1(c08Run_{Ops: ops, I: 0, J: d, Answers: map[int]byte{a: ka}, Pn: true})
 						if c.Dev >= 2 {
 							for b := a + 1; b < nw; b++ {
 								for _, kb := range []byte{'s', 'e'} {
@@ -691,7 +714,7 @@ func c08Gen(tier string, emit func(c08Case)) {
 var c08Spec = fw.Spec[c08Case]{
 	ID:    "C08",
 	Level: "model_checking",
-	Rule: "depth-bounded exhaustive search: ALL operation sequences of length <=4 (thorough 6) over 21 operations {SetStatus(-1,0,200,304,201,404,500,204,103,100), SetHeader, Write(\"\"), Write(\"ab\"), Flush, http.Error(418), Redirect(302), Text(201), Text(200), Context.WriteString, io.WriteString(c.Resp), Stream(203)} x every split of the sequence over middleware-before-Next / main handler / middleware-after-Next (also with the tail run by the OnError hook, with a HandleContext re-dispatch, right after a request that hijacked its connection, for a request carrying websocket-upgrade headers, and on an underlying writer implementing io.ReaderFrom) x every assignment of <=2 non-default answers (short write, error) to the underlying writes (every split up to length 3 (4), 4 representative splits plus OnError / re-dispatch / ReaderFrom variants at length 4 (5), <=1 fault at length 6 in the thorough tier); " +
+	Rule: "depth-bounded exhaustive search: ALL operation sequences of length <=4 (thorough 6) over 22 operations {SetStatus(-1,0,200,304,201,404,500,204,103,100), SetHeader, Write(\"\"), Write(\"ab\"), Flush, http.Error(418), Redirect(302), Text(201), Text(200), Context.WriteString, io.WriteString(c.Resp), Stream(203), http.Error(418) from a net/http handler wrapped with WrapH} x every split of the sequence over middleware-before-Next / main handler / middleware-after-Next (also with the tail run by the OnError hook, with the main handler panicking at its end and an OnPanic hook writing a byte, with a HandleContext re-dispatch, right after a request that hijacked its connection, for a request carrying websocket-upgrade headers, and on an underlying writer implementing io.ReaderFrom) x every assignment of <=2 non-default answers (short write, error) to the underlying writes (every split up to length 3 (4), 4 representative splits plus OnError / re-dispatch / ReaderFrom variants at length 4 (5), <=1 fault at length 6 in the thorough tier); " +
 		"plus the requests the router answers by itself (default and silent custom 404 / 405 responders, the body-less OPTIONS reply, do-nothing handlers) on all 384 combinations of 9 router settings; " +
 		"oracle = 20-line writer specification compared with the complete event log of a recording ResponseWriter+Flusher; non-trivial = sequence containing a write, flush or helper",
 	Assume: []string{"Text (WriteBytes) is documented to panic when the underlying write fails; after such a panic only the log so far is compared", "Length() is compared once a header was committed"},
